@@ -35,6 +35,23 @@ def _tanh(b, x):
     return b.node("Tanh", [x], lambda p: np.tanh(p.astype(np.float64)).astype(np.float32))
 
 
+def _matmul(b, x, y):
+    return b.node("MatMul", [x, y], lambda p, q: (p.astype(np.float64) @ q.astype(np.float64)).astype(np.float32))
+
+
+# Key of the body being built ("if-then-1", "loop", ...): subgraph-local constants
+# are derived from it, so that the subgraph form and the inlined form of the same
+# body hold the same weights while the two branches of an If hold different ones.
+CUR_KEY = ["body"]
+
+
+def _local_weight(b, shape):
+    import zlib
+    rs = np.random.RandomState(zlib.crc32(CUR_KEY[0].encode()) & 0x7FFFFFFF)
+    w = np.round(rs.uniform(-2, 2, size=shape) * 8) / 8
+    return b.add_init("f32", w.astype(np.float32))
+
+
 BODY_OPS = {
     # name -> fn(b, a, c1, c2): `a` is the primary value (carried value or first
     # capture), c1/c2 captured parent values. The first consumer of a capture is
@@ -45,6 +62,10 @@ BODY_OPS = {
     "neg_cap": lambda b, a, c1, c2: _add(b, _neg(b, c2), a),
     "tanh_chain": lambda b, a, c1, c2: _tanh(b, _add(b, _mul(b, a, c1), c2)),
     "twice": lambda b, a, c1, c2: _mul(b, _add(b, c1, c1), a),
+    # Constants that live inside the subgraph: a MatMul weight (pre-packed per
+    # subgraph when weight pre-packing is on) and an elementwise constant.
+    "matmul_local_weight": lambda b, a, c1, c2: _add(b, _matmul(b, a, _local_weight(b, (3, 3))), c1),
+    "local_const_scale": lambda b, a, c1, c2: _sub(b, _mul(b, a, _local_weight(b, (3,))), c2),
 }
 
 
@@ -64,6 +85,7 @@ def build_if(g, rng, spec, x, caps, inline, depth=1):
     c1, c2 = caps
     chosen = spec["then"] if spec["cond"] else spec["else"]
     if inline:
+        CUR_KEY[0] = f"if-{'then' if spec['cond'] else 'else'}-{depth}"
         y = BODY_OPS[chosen](g, x, c1, c2)
         if spec.get("nested") and depth > 0:
             y = build_if(g, rng, dict(spec, nested=False, then=spec["else"], **{"else": spec["then"]}), y, caps, True, depth - 1)
@@ -72,6 +94,7 @@ def build_if(g, rng, spec, x, caps, inline, depth=1):
     branches = {}
     for which, opname in (("then", spec["then"]), ("else", spec["else"])):
         sb = sub_builder(g, f"{which}_branch_d{depth}", [x, c1, c2])
+        CUR_KEY[0] = f"if-{which}-{depth}"
         y = BODY_OPS[opname](sb, sb.vals[x.name], sb.vals[c1.name], sb.vals[c2.name])
         if spec.get("nested") and depth > 0:
             # A nested If inside the branch, with the same condition value (captured from the top scope).
@@ -106,6 +129,7 @@ def build_loop(g, rng, spec, x, caps, inline):
         carried = x
         scans = []
         for _ in range(executed):
+            CUR_KEY[0] = "loop"
             carried = BODY_OPS[spec["op"]](g, carried, c1, c2)
             if spec.get("scan"):
                 scans.append(g.node("Unsqueeze", [_neg(g, carried), g.const("i64", np.array([0], dtype=np.int64))], lambda v, a: np.expand_dims(v, 0)))
@@ -118,6 +142,7 @@ def build_loop(g, rng, spec, x, caps, inline):
     it = sb.add_input("i64", np.array(0, dtype=np.int64), [], name=sb.fresh("iter"))
     cin = sb.add_input("bool", np.array(True), [], name=sb.fresh("cond_in"))
     car = sb.add_input(x.dt, x.arr, [None] * x.rank, name=sb.fresh("carried"))
+    CUR_KEY[0] = "loop"
     new = BODY_OPS[spec["op"]](sb, car, sb.vals[c1.name], sb.vals[c2.name])
     if stop_at is None:
         cout = sb.node("Identity", [cin], lambda v: v)
